@@ -47,6 +47,9 @@ def sessions(r, conformant=False):
             n_msgs = 0
         for _ in range(n_msgs):
             text = json_conformant_text(r) if conformant else None
+            if text is None and r.random() < 0.08:
+                text = gens.record_text(r, big=True)          # intermediate frames of more than 240 text bytes
+                meta["big"] = meta.get("big", 0) + 1
             frames, text = gens.message_frames(r, seq=r.randrange(8), text=text)
             if len(frames) > 1:
                 meta["multi"] += 1
@@ -114,6 +117,55 @@ def run(ctx):
                                        "%s/not-rendered" % s.name)
                                 break
         streams.append(s)
+
+    # the optional debug copy (a folder astm_messages in the working directory) must not cost a delivery, whatever state
+    # that folder is in: a directory, a directory that cannot be written to, a plain file of that name
+    import os
+    import shutil
+    from harness import impl
+    dc = Stream("debug-copy-folder")
+    cwd = impl.private_cwd()
+    target = os.path.join(cwd, "astm_messages")
+    for state in ("directory", "plain-file", "unwritable-directory"):
+        shutil.rmtree(target, ignore_errors=True)
+        if os.path.exists(target):
+            os.remove(target)
+        if state == "plain-file":
+            with open(target, "wb") as fh:
+                fh.write(b"not a directory")
+        else:
+            os.makedirs(target)
+            if state == "unwritable-directory":
+                os.chmod(target, 0o500)
+        try:
+            for _ in range(300 if ctx.thorough else 40):
+                evs, meta = sessions(r, False)
+                if any(gens.is_vendor_line(e[1]) for e in evs if e[0] == "d"):
+                    continue
+                fmt = r.choice(["astm", "lis2a"])
+                c = impl.Conn(fmt=fmt)
+                ref = oracles.RefReceiver(fmt)
+                got, exp = [], []
+                for ev in evs + gens.PROBE:
+                    ob = c.event(ev)
+                    got += [x if isinstance(x, str) else x.decode("latin-1") for x in ob["delivered"]]
+                    e_ = ref.expect(ev)
+                    if e_["deliver"] is not None:
+                        exp.append(e_["deliver"][1].decode("latin-1"))
+                case = {"folder": state, "format": fmt, "events": [gens.ev_hex(e) for e in evs]}
+                dc.case(case, nontrivial=bool(exp))
+                dc.count(state)
+                if got != exp:
+                    dc.fail(dict(case, delivered=len(got), expected=len(exp)),
+                            "with ./astm_messages being a %s, %d items are delivered for %d completed sessions (or their "
+                            "content differs)" % (state, len(got), len(exp)), "debug-copy/%s" % state)
+        finally:
+            if os.path.isdir(target):
+                os.chmod(target, 0o700)
+            shutil.rmtree(target, ignore_errors=True)
+            if os.path.exists(target):
+                os.remove(target)
+    streams.append(dc)
 
     # exploratory: final frame of a run without trailing CR LF (observation O1), vendor-free STX garbage
     x = Stream("exploratory-O1", in_domain=False)
